@@ -86,7 +86,7 @@ def do_step(step, root):
     ap = Path(root) / step["ap_file"]
     conv = neuropixel.NP2Converter(ap, post_check=step["post_check"], delete_original=step["delete_original"],
                                    compress=step["compress"])
-    conv.init_params(nwindow=step["nwindow"], extra=step.get("extra") or None)
+    conv.init_params(nwindow=step["nwindow"], extra=step.get("extra") or None, nshank=step.get("nshank") or None)
     pre = None
     if step.get("pre_noop_call"):
         # the same converter object is first asked for a plain (non-forced) run over existing output
@@ -155,6 +155,10 @@ def _gen_step(r, nfaults, first):
           "post_check": r.random() < 0.7, "compress": r.random() < 0.6, "delete_original": r.random() < 0.35}
     want = nfaults < 2 and r.random() < 0.6
     st["fault"] = {"auto": True, "rseed": r.randrange(1 << 30)} if want else None
+    if r.random() < 0.08:
+        # only some of the shanks are extracted (init_params(nshank=[...])): the output can then never be
+        # verified identical to the original, so the original must survive whatever the options say
+        st["nshank_frac"] = r.random()
     if st["fault"] is None and r.random() < 0.2:
         st["post_noop_call"] = True
     elif st["fault"] is None and r.random() < 0.15:
@@ -381,6 +385,15 @@ def _exec_step(W, st, model, log, stats, bump, seed):
     st["nwindow"] = W.w["nwindow"]
     st["extra"] = W.w.get("extra") or ""
     pool_seed = seed % 1000
+    st.pop("nshank", None)
+    if st.get("nshank_frac") is not None and kind == "NP24" and len(W.shanks) >= 2:
+        keys = sorted(W.shanks)
+        k = 1 + int(st["nshank_frac"] * (len(keys) - 1))
+        st["nshank"] = keys[:k] if st["nshank_frac"] < 0.5 else keys[-k:]
+        if len(st["nshank"]) == len(keys):
+            st["nshank"] = keys[:-1]
+        for key in ("post_noop_call", "repeat_forced", "pre_noop_call"):
+            st[key] = False
     if st.get("repeat_forced") and (st.get("fault") or W.w["kind"] not in ("NP24", "NP24_1sh", "NP21") or st.get("delete_original")
                                     or (W.w["kind"] == "NP21" and st.get("compress") and W.orig_path() == W.bin)):
         st["repeat_forced"] = False      # the original must still be there, in the same form, for the second call
@@ -485,7 +498,13 @@ def _exec_step(W, st, model, log, stats, bump, seed):
         what = "prior-complete" if model["completed"] and not model["dirty"] else ("fresh" if fresh else "debris")
         raise Violation("C04.S3", f"{kind}:ow{int(st['overwrite'])}:status{status}-but-changed:{what}",
                         f"process returned {status} (did nothing) but the tree changed: {[c[0] for c in changed][:8]} | " + ctx)
-    if not fired and exc is None:
+    partial = bool(st.get("nshank"))
+    if partial:
+        bump("probes", "partial_shank_run")
+        if gone:
+            raise Violation("C04.S2", f"{sig0}:partial-run-deleted-original", f"only shanks {st['nshank']} were extracted, yet the original was removed | " + ctx)
+        model["dirty"] = True          # an incomplete set on purpose: later plain runs see debris
+    elif not fired and exc is None:
         if kind == "NP1" and status != -1:
             raise Violation("C04.S5", f"{sig0}:np1-status", f"NP1 returned {status} | " + ctx)
         if kind == "split" and status != 0:
